@@ -315,6 +315,25 @@ def shape_scan(chk, repo, clause, modules, skip=()):
     return n
 
 
+def operands_untouched(chk, repo, clause, keys, allow=()):
+    """None of the functions writes (directly or through callees) into a caller-supplied operand,
+    except the documented accumulate-into targets in ``allow`` ((function key, parameter) pairs).
+    A result that depends on such a write depends on the call history."""
+    from ..effects import Effects
+    eff = Effects(repo)
+    for key in keys:
+        if not repo.has_func(key):
+            chk.undecided(clause, 'E1-write', key, 'operands untouched', 'function no longer exists under this name', '')
+            continue
+        f = repo.func(key)
+        sm = eff.summary(f)
+        ws = [w for w in sm.writes if (key, w.param) not in allow
+              and not (f.cls is not None and f.name == '__init__' and w.param == f.params()[0][0])]
+        chk.ob(clause, 'E1-write', key, 'operands untouched', not ws,
+               '; '.join(f'{w.how} on `{w.detail}` modifies the caller-supplied `{w.param}` at {w.loc}' for w in ws[:3]) or
+               f'{len(sm.writes)} write(s), all on fresh values or documented accumulate-into targets', f.loc())
+
+
 PROPERTY_MODULES = {
     'C01': ['fourier'], 'C02': ['propagate', 'fourier', 'extent', 'field', 'wavefront', 'util'],
     'C03': ['plane', 'helper', 'field', 'wavefront', 'propagate'], 'C04': ['plane', 'field', 'propagate', 'wavefront'],
